@@ -50,6 +50,10 @@ func init() {
 		"(reflect.Value).NumMethod":       ext۰reflect۰Value۰NumMethod,
 		"(reflect.Value).Pointer":         ext۰reflect۰Value۰Pointer,
 		"(reflect.Value).Set":             ext۰reflect۰Value۰Set,
+		"(reflect.Value).SetLen":          ext۰reflect۰Value۰SetLen,
+		"(reflect.Value).Addr":            ext۰reflect۰Value۰Addr,
+		"(reflect.Value).SetMapIndex":     ext۰reflect۰Value۰SetMapIndex,
+		"reflect.Append":                  ext۰reflect۰Append,
 		"(reflect.Value).String":          ext۰reflect۰Value۰String,
 		"(reflect.Value).Type":            ext۰reflect۰Value۰Type,
 		"(reflect.Value).Uint":            ext۰reflect۰Value۰Uint,
